@@ -939,7 +939,7 @@ def scenario_cases():
     return cases
 
 
-def run(ctx, out):
+def _run_component(ctx, out):
     t0 = time.time()
     thorough = ctx.thorough
     binp = build()
@@ -1148,3 +1148,10 @@ def run(ctx, out):
         "buffered_socket.c as exact-reader: request > CONFIG_MAX_MESSAGE_SIZE -> error handler; zero-length callback at end of stream (validated here against the real buffered_socket.c, proved in C09)",
         "parse_message (JSON-RPC layer) is a scripted verdict; transparency with the raw transport is checked on the whole daemon by the framework owner",
     ]
+
+
+def run(ctx, out):
+    _run_component(ctx, out)
+    # whole-daemon family (framework owner): see vlib/xdiff.py
+    from vlib import xdiff
+    xdiff.transparency(ctx, out)
